@@ -151,8 +151,37 @@ func history(c *mon.Ctx, r *gen.Rand) {
 	fail := func(sig, detail string) {
 		c.Fail(sig, detail, wit{pr.name, append([]string{}, hist...), detail})
 	}
+	// a second accumulator used in turns with the first: nothing may carry over between the two
+	acc2 := packet.NewAccumulator(func(b []byte) (bool, error) { return false, nil })
+	var bytes2 []byte
+	var pkts2 []packet.Packet
+	other := func() bool {
+		p2, pay2, _ := genPacket(r)
+		p2[3] = p2[3]&^0x30 | 0x10 // payload only
+		pay2 = p2[4:]
+		if len(pkts2) == 0 || r.Chance(6) {
+			p2[1] |= 0x40
+			bytes2, pkts2 = nil, nil
+		} else {
+			p2[1] &^= 0x40
+		}
+		if _, err := acc2.WritePacket(&p2); err != nil {
+			fail("second-accumulator:error", fmt.Sprintf("a second accumulator used in turns with the first refused a payload packet: %v", err))
+			return false
+		}
+		bytes2 = append(bytes2, pay2...)
+		pkts2 = append(pkts2, p2)
+		if !bytes.Equal(acc2.Bytes(), bytes2) || !samePackets(acc2.Packets(), pkts2) {
+			fail("second-accumulator:content", "a second accumulator used in turns with the first does not hold exactly its own packets")
+			return false
+		}
+		return true
+	}
 	n := 1 + r.Intn(24)
 	for step := 0; step < n; step++ {
+		if r.Chance(3) && !other() {
+			return
+		}
 		op := r.Intn(12)
 		switch {
 		case op < 9:
